@@ -100,9 +100,14 @@ def r18_3(ctx):
         ctx.check("failed entry: no trees (fresh empty list)", asts in ("[]", "list()"), "asts = []", str(asts), fn_where(idx, fi))
         ctx.check("failed entry: carries the behaviours and the error's class name", (args[2:3] == ["BEH"] or kws.get("behaviors") == "BEH") and exc is not None and exc.startswith("ParserException("),
                   "ParsedInsn(name, [], behaviors, ParserException(e))", txt[:140], fn_where(idx, fi))
+    def _cls_name(t):
+        t = t or ""
+        if t.startswith("str(") and t.endswith(")"):
+            t = t[4:-1]
+        return t.replace("exception.__class__", "type(exception)")
     pe = idx.func("ParserException.__init__")
     stores = {U(n.targets[0]): U(n.value) for n in ast.walk(pe.node) if isinstance(n, ast.Assign)}
-    ctx.check("ParserException records the exception's class name", stores.get("self.name") == "str(type(exception).__name__)", "self.name = str(type(exception).__name__)", str(stores), fn_where(idx, pe))
+    ctx.check("ParserException records the exception's class name", _cls_name(stores.get("self.name")) == "type(exception).__name__", "self.name = str(type(exception).__name__)", str(stores), fn_where(idx, pe))
     for p in ok_paths:
         v = p.value
         ok = isinstance(v, ast.Dict) and len(v.keys) == 1 and norm(v.keys[0]) == "NAME" and isinstance(v.values[0], ast.Call) and call_name(v.values[0]) == "ParsedInsn"
